@@ -27,8 +27,23 @@ SPECIAL_NAMES = {refcodec.WELL_KNOWN_MIME[i].encode() for i in SPECIAL}
 KNOWN_IDS = sorted(refcodec.WELL_KNOWN_MIME)
 
 
+def _near_table_names():
+    out = []
+    for name in list(refcodec.WELL_KNOWN_MIME.values()) + ['simple', 'bearer']:
+        b = name.encode()
+        for v in (b.upper(), b.title(), b.swapcase(), b + b' ', b' ' + b, b[:-1], b + b';q=1'):
+            if v != b and 1 <= len(v) <= 128 and v.decode('latin-1') not in refcodec.WELL_KNOWN_MIME_BY_NAME:
+                out.append(v)
+    return sorted(set(out))
+
+
+NEAR_TABLE = _near_table_names()
+
+
 def custom_name(lo=1, hi=128):
     return st.one_of(
+        # names that are NOT in the well-known table but differ from a table name only by case / whitespace / one byte
+        st.sampled_from(NEAR_TABLE),
         st.sampled_from([1, 2, 127, 128]).flatmap(lambda n: st.binary(min_size=n, max_size=n)),
         st.binary(min_size=lo, max_size=hi),
         st.sampled_from([b'application/x-custom', b'x', b'a/b']),
